@@ -4,7 +4,7 @@
 usage: tools/seedsweep.py [--repo DIR] [--verif DIR] [ids...]
 The change is applied with `git -C <repo> apply`, the checks named in meta.json["checked_with"] are run, and the change is
 undone with `git -C <repo> checkout -- .` straight afterwards.  Nothing is ever committed to the repository.
-Writes seeded/<id>/result.json and seeded/RESULTS.md (in --verif)."""
+Writes seeded/<id>/result.json (in --verif); tools/seedtable.py prints the table."""
 import json, os, subprocess, sys, time, re
 
 args = sys.argv[1:]
@@ -54,8 +54,5 @@ for sid in ids:
                ("undecided" if any(r["exit"] == 2 for r in res.values()) else "MISSED"))
     rows.append((sid, verdict, ", ".join(f"{c}: exit {r['exit']}" + (" (failing input replayed)" if r["concrete_input"] else "") for c, r in res.items())))
     print(rows[-1], flush=True)
-with open(os.path.join(verif, "seeded", "RESULTS.md"), "w") as f:
-    f.write("| seeded change | outcome | checks |\n|---|---|---|\n")
-    for r in rows:
-        f.write("| %s | %s | %s |\n" % r)
+# the table is produced from the result.json files by tools/seedtable.py
 sh(f"git -C {verif} checkout -- evidence")
